@@ -325,6 +325,177 @@ def check_ident_hygiene(rep, n):
                 "pdl-compiler/src/backends/rust")
 
 
+APPEND = {"push_str", "push", "extend", "append", "write_str", "write_fmt", "extend_from_slice"}
+# `Lazy<T>`/`LazyLock<T>` with a plain T is a constant computed once by a closure that has no inputs (java/mod.rs keeps its
+# four `java::Import` constants that way): not state.  A Lazy around a Mutex/RefCell/.. still matches through its argument.
+SHARED_STATE_TY = re.compile(r"\b(Cell|RefCell|Mutex|RwLock|Atomic\w+|OnceCell|OnceLock|UnsafeCell)\b")
+SHARED_STATE_MACRO = ("thread_local", "lazy_static")
+
+
+def _decl_loops(fn):
+    """(kind, line, body nodes) of every iteration over `<x>.declarations` in fn: `for d in &file.declarations {..}` and
+    `file.declarations.iter()...map/for_each/filter_map/flat_map(|d| ..)`."""
+    from .. import synq
+    mentions = lambda e: bool(synq.find_all(e, lambda x: x.get("k") == "Field" and x.get("member") == "declarations"))
+    out = []
+    for f in synq.find_all(fn.get("body"), lambda x: x.get("k") == "For"):
+        if mentions(f["iter"]):
+            out.append(("for", f.get("l"), f["body"]))
+    for c in synq.find_all(fn.get("body"), lambda x: x.get("k") == "MethodCall" and x.get("method") in
+                           ("map", "for_each", "filter_map", "flat_map", "fold", "filter", "try_for_each")):
+        if mentions(c["recv"]) and not synq.find_all(c["recv"], lambda x: x.get("k") == "Closure"):
+            for a in c["args"]:
+                if a.get("k") == "Closure":
+                    out.append(("closure", c.get("l"), a))
+    return out
+
+
+def _uses(body, name):
+    """Every use of local `name` inside body as (how, line): 'append' when it is only the receiver of an append-only
+    method or the sink of write!/writeln!, 'other' otherwise (read, passed on, borrowed)."""
+    from .. import synq
+    uses = []
+    appended = set()
+    for c in synq.find_all(body, lambda x: x.get("k") == "MethodCall" and x.get("method") in APPEND):
+        r = c["recv"]
+        if r.get("k") == "Path" and r["path"]["s"] == name:
+            appended.add(id(r))
+            uses.append(("append", c.get("l")))
+    for pth in synq.find_all(body, lambda x: x.get("k") == "Path" and x.get("path", {}).get("s") == name):
+        if id(pth) not in appended:
+            uses.append(("other", pth.get("l")))
+    for m in synq.find_all(body, lambda x: x.get("k") == "Macro" and x.get("tokens")):
+        toks = m["tokens"]
+        if not re.search(r"(?<![\w.])%s(?!\w)" % re.escape(name), toks):
+            continue
+        if m.get("path") in ("write", "writeln") and re.match(r"\s*(&\s*mut\s+)?%s\s*," % re.escape(name), toks) \
+                and len(re.findall(r"(?<![\w.])%s(?!\w)" % re.escape(name), toks)) == 1:
+            uses.append(("append", m.get("l")))
+        else:
+            uses.append(("other", m.get("l")))
+    return uses
+
+
+def _isolation_file(rep, n, rel, js):
+    from .. import synq
+    for k_ in ("isolation_files", "isolation_items", "isolation_loops", "isolation_locals", "exclude_loops"):
+        n.setdefault(k_, 0)
+    n["isolation_files"] += 1
+    is_test = re.search(r"(^|/)test(s|_utils)?\.rs$", rel) is not None
+    # e1 -----------------------------------------------------------------------------------------------------------
+    def e1(x, parent):
+        k = x.get("k")
+        if k in ("Static", "Const", "ItemMacro", "Macro"):
+            n["isolation_items"] += 1
+        if k == "Static" and (x.get("mut") or SHARED_STATE_TY.search(x.get("ty", ""))):
+            rep.add(f"C11|exclusion|shared-mutable-state|{rel}|{x['name']}",
+                    f"{rel}:{x.get('l')}: `static {x['name']}: {x.get('ty')}` is mutable state that outlives the generation of "
+                    f"one declaration: text emitted for a declaration can depend on which declarations were generated before it "
+                    f"(and on earlier compilations in the same process)", f"{rel}:{x.get('l')}")
+        if k in ("ItemMacro", "Macro") and str(x.get("path", "")).split("::")[-1].strip() in SHARED_STATE_MACRO:
+            rep.add(f"C11|exclusion|shared-mutable-state|{rel}|{x.get('path')}",
+                    f"{rel}:{x.get('l')}: `{x.get('path')}!` declares state shared by all declarations (and all compilations of "
+                    f"this thread/process) inside a generator module", f"{rel}:{x.get('l')}")
+    if not is_test:
+        synq.walk(js, e1)
+    # e2, e3 -------------------------------------------------------------------------------------------------------
+    for name, fn in synq.functions(js).items():
+        if is_test or re.search(r"(^|::)tests?::", name) or "java/" in rel:
+            continue   # java: generate_classes looks parents and referenced classes up by id in its class map (related decls)
+        loops = _decl_loops(fn)
+        if not loops:
+            continue
+        outer = {}
+        for st in fn.get("body") or []:
+            if isinstance(st, dict) and st.get("k") == "Let":
+                for pi in synq.find_all(st["pat"], lambda x: x.get("k") == "PIdent" and x.get("mut")):
+                    outer[pi["id"]] = st.get("l")
+        takes_exclude = any(isinstance(p_, dict) and p_.get("pat", {}).get("id") == "exclude_declarations"
+                            for p_ in (fn.get("params") or []))
+        for kind, line, body in loops:
+            n["isolation_loops"] += 1
+            for v in sorted(outer):
+                us = _uses(body, v)
+                if us:
+                    n["isolation_locals"] += 1
+                bad = [l for how, l in us if how == "other"]
+                if bad:
+                    rep.add(f"C11|exclusion|state-carried-across-declarations|{rel}|{name}|{v}",
+                            f"{rel}:{bad[0]}: `{v}` (declared mutable outside the walk over file.declarations at line {line} of "
+                            f"{name}) is read or handed on inside the walk: what is generated for one declaration depends on the "
+                            f"declarations visited before it, so excluding an unrelated declaration can change it",
+                            f"{rel}:{bad[0]}")
+            if takes_exclude:
+                n["exclude_loops"] += 1
+                tests = synq.find_all(body, lambda x: x.get("k") == "MethodCall" and x.get("method") == "contains" and
+                                      x["recv"].get("k") == "Path" and x["recv"]["path"]["s"] == "exclude_declarations")
+                if not tests:
+                    rep.add(f"C11|exclusion|walk-ignores-exclude|{rel}|{name}",
+                            f"{rel}:{line}: {name} receives exclude_declarations, but this walk over file.declarations never "
+                            f"tests it, unlike its sibling walks: output is produced for (or from) an excluded declaration",
+                            f"{rel}:{line}")
+
+
+def check_decl_isolation(rep, n, extra_files=()):
+    """(e) excluding a declaration changes nothing in the code of unrelated declarations.  Necessary conditions visible in
+    the shape of the generators (decided here; equality of two outputs is not):
+     e1  no process-wide or thread-wide mutable state in the generator modules (a cache keyed by width or type name makes
+         the text emitted for one declaration depend on which declarations were generated before it);
+     e2  in every entry point that walks `file.declarations`, a mutable local declared outside the walk is only ever
+         appended to inside it (output accumulation) - it is never read, passed to a per-declaration generator or borrowed,
+         so no information flows from one declaration's iteration into another's;
+     e3  in an entry point that receives `exclude_declarations`, every walk over the declarations tests it (siblings agree)."""
+    import glob, os
+    from .. import synq
+    from ..core import REPO
+    files = []
+    for pat in ("pdl-compiler/src/backends/*.rs", "pdl-compiler/src/backends/*/*.rs", "pdl-compiler/src/backends/*/*/*.rs"):
+        files += [os.path.relpath(p, REPO) for p in glob.glob(os.path.join(REPO, pat))]
+    files = sorted(set(files)) + list(extra_files)
+    n["isolation_files"] = n["isolation_items"] = n["isolation_loops"] = n["isolation_locals"] = n["exclude_loops"] = 0
+    for rel in files:
+        js = stages.repo_syn(rel)
+        if not js:
+            continue
+        _isolation_file(rep, n, rel, js)
+    if n["isolation_loops"] < 6:
+        rep.add("C11|floor|declaration-walks", f"only {n['isolation_loops']} walks over file.declarations found in the backends' "
+                f"entry points (floor 6: python 3, cxx 2, rust 1)", "pdl-compiler/src/backends")
+    if n["exclude_loops"] < 5:
+        rep.add("C11|floor|exclude-walks", f"only {n['exclude_loops']} walks in entry points taking exclude_declarations (floor 5)",
+                "pdl-compiler/src/backends")
+    if n["isolation_locals"] < 4:
+        rep.add("C11|floor|accumulators", f"only {n['isolation_locals']} (walk, accumulator) pairs seen (floor 4: `code` in five "
+                f"walks, `custom_types`)", "pdl-compiler/src/backends")
+
+
+def check_isolation_fixture(rep, n):
+    """The rule's expected count on the tree is zero: a fixture with one instance of each construct must match on every run."""
+    import os, tempfile
+    from ..core import VERIF, Report
+    from ..stages import TOOLBIN, build_tools, sh
+    build_tools()
+    src = os.path.join(VERIF, "spec", "c11_isolation_fixture.rs")
+    with tempfile.TemporaryDirectory() as td:
+        out = os.path.join(td, "fixture.json")
+        p = sh([os.path.join(TOOLBIN, "syn2json"), src, out], check=False)
+        probe = Report("C11", LEVEL, "quick", 0)
+        pn = {}
+        if p.returncode == 0:
+            _isolation_file(probe, pn, "spec/c11_isolation_fixture.rs", json.load(open(out)))
+    got = sorted({":".join(f.key.split("|")[2:3]) for f in probe.findings})
+    keys = {f.key for f in probe.findings}
+    want = {"C11|exclusion|shared-mutable-state|spec/c11_isolation_fixture.rs|HELPERS_EMITTED",
+            "C11|exclusion|shared-mutable-state|spec/c11_isolation_fixture.rs|SEEN",
+            "C11|exclusion|shared-mutable-state|spec/c11_isolation_fixture.rs|thread_local",
+            "C11|exclusion|state-carried-across-declarations|spec/c11_isolation_fixture.rs|generate|emitted_widths",
+            "C11|exclusion|walk-ignores-exclude|spec/c11_isolation_fixture.rs|generate"}
+    n["isolation_fixture_hits"] = len(want & keys)
+    if not want <= keys or len(keys) != len(want):
+        rep.add("C11|floor|isolation-fixture", f"the isolation rule reported {sorted(keys)} on its fixture, expected exactly "
+                f"{sorted(want)}: the rule no longer recognises its own positive examples", "spec/c11_isolation_fixture.rs")
+
+
 def run(rep, tier, seed):
     n = {"hash_sites": 0, "hash_exceptions": 0, "ambient_sites": 0, "calls": 0, "pipeline_sites": 0, "samples": []}
     comp = stages.mir_bodies("compiler")
@@ -342,6 +513,8 @@ def run(rep, tier, seed):
     check_pipeline_derive(rep, derive, n)
     check_rust_generate(rep, comp, n)
     check_ident_hygiene(rep, n)
+    check_decl_isolation(rep, n)
+    check_isolation_fixture(rep, n)
     java = None
     if tier == "thorough":
         try:
@@ -358,11 +531,18 @@ def run(rep, tier, seed):
         "bodies": len(comp) + len(pdlc) + len(derive) + (len(java) if java else 0),
         "call_sites_scanned": n["calls"], "hash_iteration_sites": n["hash_sites"],
         "ambient_sites": n["ambient_sites"], "pipeline_sites": n["pipeline_sites"],
+        "isolation": {"rule": "no shared mutable state in generator modules; mutable locals outside a walk over "
+                              "file.declarations are append-only inside it; every walk in an entry point taking "
+                              "exclude_declarations tests it",
+                      "files": n.get("isolation_files"), "items_scanned": n.get("isolation_items"),
+                      "declaration_walks": n.get("isolation_loops"), "walk_accumulator_pairs": n.get("isolation_locals"),
+                      "walks_testing_exclude": n.get("exclude_loops"), "fixture_hits": n.get("isolation_fixture_hits")},
         "samples": n["samples"][:6] or [{"note": "no hash-ordered iteration site"}],
         "evaluations": n["calls"], "distinct_nontrivial": n["hash_sites"] + n["ambient_sites"] + n["pipeline_sites"],
     })
     rep.assumptions += ["trimmed callee paths of rustc's MIR dump identify std HashMap/HashSet iteration",
-                        "excluding a leaf declaration leaving other output unchanged is not decided",
+                        "exclusion clause: only the structural necessary conditions (e1-e3) are decided, not equality of outputs; "
+                        "the Java backend's class map (looked up by parent / referenced id) is outside e2",
                         "quote!/format! expansion order is source order"]
     if n["hash_sites"] < 1:
         rep.add("C11|floor|hash-sites", "no hash iteration site found: the rule matched nothing (expected >= 1: "
